@@ -63,7 +63,13 @@ func Bidi() xmpp.StreamFeature {
 			if err != nil {
 				return 0, nil, err
 			}
-			return 0, nil, w.EncodeToken(start.End())
+			err = w.EncodeToken(start.End())
+			if err != nil {
+				return 0, nil, err
+			}
+			// Nothing has been written yet: the deferred Close would flush too, but
+			// nobody would see its error.
+			return 0, nil, w.Flush()
 		},
 	}
 }
